@@ -564,7 +564,10 @@ def _asdict_inner(obj, dict_factory, hooks, meta, cls_to_dump_func,
             dump_hook = hooks[NamedTupleMeta]
 
         else:
-            for t in hooks:
+            # Note: iterate over a snapshot of the keys, as another thread can
+            # cache the hook for a new subtype (i.e. add a key) in the meantime,
+            # which otherwise raises "dictionary changed size during iteration".
+            for t in tuple(hooks):
                 if isinstance(obj, t):
                     # cache the hook for the subtype, so that next time this
                     # logic isn't run again.
